@@ -410,7 +410,8 @@ func IsMap(val Value) bool {
 
 // IsIterable returns true if the given Value is a slice, array, or map.
 func IsIterable(val Value) bool {
-	if val == nil {
+	if val == nil || isNilPointer(val) {
+		// a nil pointer is null too, whatever it points to
 		return true
 	}
 	r := reflect.Indirect(reflect.ValueOf(val))
@@ -423,7 +424,7 @@ func IsIterable(val Value) bool {
 
 // Iterate calls the Iteratee func for every item in the Value.
 func Iterate(val Value, it Iteratee) (int, error) {
-	if val == nil {
+	if val == nil || isNilPointer(val) {
 		return 0, nil
 	}
 	r := reflect.Indirect(reflect.ValueOf(val))
@@ -489,7 +490,7 @@ func Iterate(val Value, it Iteratee) (int, error) {
 
 // Len returns the Length of Value.
 func Len(val Value) (int, error) {
-	if val == nil {
+	if val == nil || isNilPointer(val) {
 		return 0, nil
 	}
 	r := reflect.Indirect(reflect.ValueOf(val))
